@@ -15,6 +15,8 @@ pub struct Cfg {
     /// `class C;` in front of some class definitions (only where the expectations do not depend on which of the
     /// two statements "the declaration" is: outline and hover)
     pub forward_decls: bool,
+    /// fields / template arguments may reuse the name of a global defvar
+    pub cross_kind_shadow: bool,
     pub non_ascii: bool,
     pub dead_use: bool,
     pub multiclass_args_hints: bool,
@@ -34,6 +36,7 @@ impl Cfg {
             crlf: rng.chance(1, 6),
             mixed_eol: false,
             forward_decls: false,
+            cross_kind_shadow: true,
             non_ascii: rng.chance(1, 3),
             dead_use: false,
             multiclass_args_hints: true,
@@ -138,6 +141,10 @@ pub struct G<'r> {
     pub braceless: u32,
     pub guarded_includes: Vec<String>,
     pub eol: &'static str,
+    /// global names that must not be used at the moment (see `shadow_name`)
+    pub masked: Vec<String>,
+    /// global defvar names already reused as a field / template-argument name
+    pub shadowed_globals: HashSet<String>,
 }
 
 pub const NON_ASCII_WORDS: [&str; 4] = ["caf\u{e9}", "\u{20ac}uro", "\u{1d11e}clef", "\u{3042}\u{3044}"];
@@ -177,6 +184,8 @@ impl<'r> G<'r> {
             braceless: 0,
             guarded_includes: Vec::new(),
             eol,
+            masked: vec![],
+            shadowed_globals: HashSet::new(),
         }
     }
 
@@ -224,6 +233,56 @@ impl<'r> G<'r> {
     }
 
     // ---------------------------------------------------------------- names
+    /// name for a field or template argument of a class: now and then the name of a GLOBAL defvar (the record's own
+    /// declaration is the inner one and wins inside the record; outside, the defvar is still what the name means).
+    /// Only globals: a defvar of an enclosing block would win over a field in llvm-tblgen, against "innermost wins".
+    pub fn shadow_name(&mut self, prefix: &str, own_scopes: usize) -> String {
+        if self.cfg.cross_kind_shadow && self.scopes.len() == own_scopes && self.rng.chance(1, 5) {
+            let cands: Vec<String> = self
+                .gvars
+                .iter()
+                .filter(|g| self.p.decls[g.decl].kind == DeclKind::Defvar && !self.shadowed_globals.contains(&g.name))
+                .map(|g| g.name.clone())
+                .collect();
+            if !cands.is_empty() {
+                let n = cands[self.rng.below(cands.len())].clone();
+                self.shadowed_globals.insert(n.clone());
+                self.p.features.push("scope:field-or-template-arg-shadows-global-defvar");
+                return n;
+            }
+        }
+        self.fresh(prefix)
+    }
+    /// name for a bang-operator variable: now and then the name of a visible block variable or global defvar, which it
+    /// shadows until the operator's closing parenthesis (never another bang variable, a field or a template argument -
+    /// llvm-tblgen rejects that - and never a loop variable)
+    pub fn bang_var_name(&mut self, prefix: &str, not: &[String]) -> String {
+        if self.cfg.cross_kind_shadow && self.rng.chance(1, 4) {
+            let mut taken: HashSet<String> = self.loop_vars.iter().cloned().collect();
+            if let Some(r) = &self.rec {
+                taken.extend(r.fields.iter().map(|f| f.name.clone()));
+                taken.extend(r.targs.iter().map(|a| a.name.clone()));
+            }
+            taken.extend(self.mc_targs.iter().map(|a| a.name.clone()));
+            taken.extend(self.masked.iter().cloned());
+            taken.extend(not.iter().cloned());
+            // (a name that an enclosing bang operator already uses for its variable cannot be used again)
+            taken.extend(self.scopes.iter().flat_map(|s| s.iter()).filter(|v| self.p.decls[v.decl].kind == DeclKind::BangVar).map(|v| v.name.clone()));
+            let cands: Vec<String> = self
+                .scopes
+                .iter()
+                .flat_map(|s| s.iter())
+                .chain(self.gvars.iter())
+                .filter(|v| self.p.decls[v.decl].kind == DeclKind::Defvar && !taken.contains(&v.name))
+                .map(|v| v.name.clone())
+                .collect();
+            if !cands.is_empty() {
+                self.p.features.push("scope:bang-var-shadows-outer-variable");
+                return cands[self.rng.below(cands.len())].clone();
+            }
+        }
+        self.fresh(prefix)
+    }
     pub fn fresh(&mut self, prefix: &str) -> String {
         loop {
             self.counter += 1;
@@ -291,6 +350,9 @@ impl<'r> G<'r> {
             }
         }
         for v in self.gvars.iter().rev() {
+            if self.masked.contains(&v.name) {
+                continue; // a field / template argument of the record at hand has this name, but is not visible here
+            }
             if seen.insert(v.name.clone()) {
                 out.push((v.name.clone(), v.ty.clone(), v.decl));
             }
